@@ -1,4 +1,5 @@
 import AdeuModel.Lemmas.Trim
+import AdeuModel.Lemmas.Frame
 /-
 C02 — accepting the changes yields exactly the requested text.
 Part (a): the context-trimming step `_trim_common_context` (model `Adeu.Trim.trim`) never trims
@@ -32,6 +33,30 @@ theorem C02_trim_reassemble (sp : Char → Bool) (t n : Str) :
     rw [show p + (n.length - s - p) = n.length - s by omega] at this
     exact this.symm
   rw [h2, List.take_append_drop]
+
+/-! Part (b): where the engine looks for the target (`Adeu.Doc.locate`, the lookup of
+`_apply_single_edit_heuristic`), in terms of the text a client extracts. -/
+open Adeu.Doc in
+/-- A target that is an exact piece of the raw extracted text and touches no deleted text is located at its
+first occurrence there, with exactly its own length: no accepted-view lookup, no fuzzy matcher, whatever the
+recorded results of the non-literal matchers are. -/
+theorem C02_located_where_read (s : Sess) (e : HEdit) (i : Nat)
+    (h : Markup.find e.target (extractText false s.doc) = some i)
+    (hd : touchesDeletion (s.spans false) i (i + e.target.length) = false) :
+    locate s e = some ⟨false, i, e.target.length⟩ := by
+  rw [← spans_text_eq_extractText] at h
+  exact locate_exact_raw s e i h hd
+
+open Adeu.Doc in
+/-- A target that runs across tracked-deleted text — an exact piece of the accepted view only — is located at
+its first occurrence in the accepted view, before any fuzzy lookup in either view. -/
+theorem C02_located_in_accepted_view (s : Sess) (e : HEdit) (i : Nat)
+    (h1 : Markup.find e.target (extractText false s.doc) = none)
+    (h2 : Markup.find (Markup.replaceSmart e.target) (Markup.replaceSmart (extractText false s.doc)) = none)
+    (h : Markup.find e.target (extractText true s.doc) = some i) :
+    locate s e = some ⟨true, i, e.target.length⟩ := by
+  rw [← spans_text_eq_extractText] at h1 h2 h
+  exact locate_exact_clean s e i h1 h2 h
 
 example : trim pyIsSpace "Hello big world".toList "Hello small world".toList = (6, 6) := by decide
 
